@@ -38,7 +38,7 @@ TraceInit ==
     /\ prog = ProgOf(Rec[1])
     /\ chan = Chan0 /\ lk = Lk0 /\ state = <<>> /\ reducers = InitReducers /\ mws = InitMws
     /\ subs = <<>> /\ pool = "present" /\ tasks = <<>> /\ pc = Pc0
-    /\ loc = [t \in Threads |-> Loc0] /\ m = M0 /\ h = H0 /\ lbl = Lbl0
+    /\ loc = [t \in Threads |-> Loc0] /\ sig = {} /\ m = M0 /\ h = H0 /\ lbl = Lbl0
     /\ l = 2
     /\ stepped = [t \in Threads |-> FALSE]
     /\ cursor = FirstOf(Rec[1])
